@@ -1231,3 +1231,17 @@ pub fn representative_iterator_count(options: DbOptions, levels: &[(usize, Vec<V
     let (v, _tc) = version_with(&options, levels);
     v.get_representative_iterators(&ReadOptions::default()).ok().map(|its| its.len())
 }
+
+/// Calls `Version::record_read_sample(key)` up to `times` times on a version holding `levels`; returns the seek-compaction
+/// candidate (file number, level recorded for it) once one is set.
+pub fn read_sample_scenario(options: DbOptions, levels: &[(usize, Vec<VFile>)], key: (Vec<u8>, u64), times: usize) -> Option<(u64, usize)> {
+    let (mut v, _tc) = version_with(&options, levels);
+    let k = InternalKey::new(key.0, key.1, Operation::Put);
+    for _ in 0..times {
+        if v.record_read_sample(&k) {
+            break;
+        }
+    }
+    let m = v.get_seek_compaction_metadata();
+    m.file_to_compact.as_ref().map(|f| (f.file_number(), m.level_of_file_to_compact))
+}
